@@ -110,7 +110,36 @@ def stage_tables(chk):
         ib = chr(c) in "\r\n\x85\u2028\u2029"
         if (p, b) != (ip, ib):
             chk.disagree("yaml.reader.Reader.NON_PRINTABLE / scanner line breaks vs Model_C16.printable / is_break", c, [ip, ib], [p, b])
-    chk.stages["tables"] = {"emit": len(emit_i), "scan": len(scan_i), "points": len(pts)}
+    # http.cookies: one-character strings never raise and never hold a morsel (what _extract_cookies hands over today);
+    # Model_C16.cookie_error against SimpleCookie on the cookie shapes of the generators
+    from http.cookies import CookieError, SimpleCookie
+
+    from schemathesis.cli.commands.run.handlers.cassettes import _extract_cookies
+
+    chars = sorted(set(range(0x180)) | set(CLASS_POINTS))
+    for c in chars:
+        try:
+            got = list(SimpleCookie(chr(c)).items())
+        except Exception as exc:  # noqa: BLE001
+            got = type(exc).__name__
+        if got != []:
+            chk.disagree("SimpleCookie on a one-character string (model: no morsel, no CookieError)", c, got, [])
+    m_err = core.coq_eval(IMPORTS, [f"(cookie_error {cstr(v)}, existsb cookie_error (pieces_now {cstr(v)}))" for v in COOKIE_VALUES])
+    for v, (whole, now) in zip(COOKIE_VALUES, m_err):
+        try:
+            SimpleCookie(v)
+            real = False
+        except CookieError:
+            real = True
+        if real != whole or now is not False:
+            chk.disagree("SimpleCookie raising CookieError vs Model_C16.cookie_error", v, real, [whole, now])
+        try:
+            got = [(c.name, c.value) for c in _extract_cookies([v, v])]
+        except Exception as exc:  # noqa: BLE001
+            got = f"raises {type(exc).__name__}: {exc}"
+        if got != []:
+            chk.disagree("_extract_cookies on a header value vs Model_C16 (pieces_now: characters, no morsel, never raises)", v, got, [])
+    chk.stages["tables"] = {"emit": len(emit_i), "scan": len(scan_i), "points": len(pts), "cookie_chars": len(chars), "cookie_values": len(COOKIE_VALUES)}
 
 
 # ----------------------------------------------------------------------------------------
@@ -230,7 +259,11 @@ class Sink:
 
 
 URL_CHARS = list("abz09/-._~:?#[]@!$&()*+,;=%") + ["'", "'", '"', "\\", "{", "}", "|", "^", "`", "%27", "%20", "''"]
-HEADER_NAMES = ["Content-Type", "X-A", "Accept", "x-b", "Set-Cookie", "Location", "X-Long-Name-1"]
+HEADER_NAMES = ["Content-Type", "X-A", "Accept", "x-b", "Set-Cookie", "Location", "X-Long-Name-1", "Cookie", "Cookie", "cookie"]
+# cookie header values: legal pairs, names with characters SimpleCookie refuses (/ @ , ( ) { } ? < >), =-less fragments, quotes,
+# semicolons, attributes, non-ASCII, empty
+COOKIE_VALUES = ["sid=1", "tenant/id=1", "a@b=1; c=2", "x", "", "=", "=v", "k=", 'q="a;b"', "\xe9=1", "a=1; (b)=2", "k=v; Path=/; HttpOnly", "$Version=1; a=b",
+                 "path=/", "a,b=1", "{x}=1", "a?=1", "<t>=1", ";;;", "a=b=c", "[Filtered]", "sid=1; tenant/id=2", "n\xe4me/x=\xff", 'a="b\\"c"; d/e=1', "A=1; B", "a b/c=1"]
 LATIN1 = [chr(c) for c in (0x20, 0x21, 0x22, 0x27, 0x5C, 0x7E, 0x7F, 0x80, 0x85, 0xA0, 0xE9, 0xFF, 0x09, 0x01, 0x1B, 0x3A, 0x23, 0x2D)] + list("abc019")
 BODIES = [b"", b"{}", b'{"a": "b\'c"}', b"\xff\xfe\x00", b"caf\xc3\xa9", b"\xc3", b"a\x00b\x07\x1b", b"line1\nline2\r\n\ttab", b"\xc2\x85\xe2\x80\xa8\xe2\x80\xa9\xef\xbb\xbf",
           "\U0001f600 astral".encode(), b"\xed\xa0\x80", b"\x7f\x80\x9f\xa0", b'"quoted" \\ back', b"'single'", b": - # [a] {b}", bytes(range(256))]
@@ -251,7 +284,10 @@ def rand_headers(rng, nasty_names):
         name = rng.choice(HEADER_NAMES)
         if nasty_names and rng.random() < 0.5:
             name += rng.choice(['"', "\\", '"x', "\\n", "'"])
-        out[name] = ["".join(rng.choice(LATIN1) for _ in range(rng.choice([0, 1, 3, 9]))) for _ in range(rng.choice([1, 1, 1, 2]))]
+        if name.lower() in ("cookie", "set-cookie") and rng.random() < 0.8:
+            out[name] = [rng.choice(COOKIE_VALUES) for _ in range(rng.choice([1, 1, 2]))]
+        else:
+            out[name] = ["".join(rng.choice(LATIN1) for _ in range(rng.choice([0, 1, 3, 9]))) for _ in range(rng.choice([1, 1, 1, 2]))]
     return out
 
 
@@ -550,10 +586,18 @@ def stage_writers(chk, n):
             if region is not None:
                 stats["inside_regions"][region] = stats["inside_regions"].get(region, 0) + 1
             chk.fail(f"VCR cassette: {problem if isinstance(problem, str) else 'differs from the traffic'}", case, problem if not isinstance(problem, str) else text[-400:], region=region)
-        # --- HAR (sanitization off here; the sanitised userinfo crash is exercised in the thread stage)
+        # --- HAR with sanitization on: must not raise, must be complete (content under sanitization is C15's subject)
+        text, exc = run_writer("har", [rec], True, preserve)
+        try:
+            n_entries = len(json.loads(text)["log"]["entries"]) if exc is None else None
+        except ValueError:
+            n_entries = "not JSON"
+        if exc is not None or n_entries != 1:
+            chk.fail(f"har_writer (sanitization on) raised {type(exc).__name__ if exc else None} / wrote {n_entries} entries for 1 exchange", case, str(exc), region=None)
+        # --- HAR with sanitization off
         text, exc = run_writer("har", [rec], False, preserve)
         if exc is not None:
-            chk.fail(f"har_writer raised {type(exc).__name__}: {exc}", case, None, region=None)
+            chk.fail(f"har_writer raised {type(exc).__name__}: {exc}: the writer thread dies, har.json is cut", case, None, region=None)
             continue
         try:
             har = json.loads(text)
@@ -653,12 +697,12 @@ def canon_model_har(e):
     post = popt(e["he_post"])
     resp = popt(e["he_resp"])
     out = {"method": pstr(e["he_method"]), "url": pstr(e["he_url"]), "query": parse_qsl(pstr(e["he_query"]), keep_blank_values=True), "httpVersion": pstr(e["he_version"]), "headers": pairs(e["he_headers"]),
-           "post": None if post is None else (pstr(post[0]), payload_text(post[1])), "bodySize": e["he_body_size"], "response": None}
+           "post": None if post is None else (pstr(post[0]), payload_text(post[1])), "bodySize": e["he_body_size"], "cookies": pairs(e["he_cookies"]), "response": None}
     if resp is not None:
         content = popt(resp["hr_content"])
         out["response"] = {"status": resp["hr_status"], "statusText": pstr(resp["hr_text"]), "httpVersion": pstr(resp["hr_version"]), "headers": pairs(resp["hr_headers"]),
                            "mimeType": pstr(resp["hr_mime"]), "text": None if content is None else payload_text(content), "encoding": "base64" if resp["hr_base64"] else None,
-                           "size": resp["hr_size"], "redirectURL": pstr(resp["hr_redirect"])}
+                           "size": resp["hr_size"], "redirectURL": pstr(resp["hr_redirect"]), "cookies": pairs(resp["hr_cookies"])}
     return out
 
 
@@ -667,14 +711,16 @@ def canon_har_response(r):
     if r["status"] == 0 and r["statusText"] == "" and not r["headers"] and r["httpVersion"] == "" and not c.get("text") and not r.get("cookies"):
         return None
     return {"status": r["status"], "statusText": r["statusText"], "httpVersion": r["httpVersion"], "headers": [(h["name"], h["value"]) for h in r["headers"]],
-            "mimeType": c.get("mimeType") or "", "text": c.get("text"), "encoding": c.get("encoding"), "size": c.get("size"), "redirectURL": r.get("redirectURL") or ""}
+            "mimeType": c.get("mimeType") or "", "text": c.get("text"), "encoding": c.get("encoding"), "size": c.get("size"), "redirectURL": r.get("redirectURL") or "",
+            "cookies": [(k["name"], k["value"]) for k in r.get("cookies") or []]}
 
 
 def canon_file_har(e):
     rq = e["request"]
     pd = rq.get("postData")
     return {"method": rq["method"], "url": rq["url"], "query": [(q["name"], q["value"]) for q in rq["queryString"]], "httpVersion": rq["httpVersion"], "headers": [(h["name"], h["value"]) for h in rq["headers"]],
-            "post": None if pd is None else (pd.get("mimeType"), pd.get("text")), "bodySize": rq.get("bodySize"), "response": canon_har_response(e["response"])}
+            "post": None if pd is None else (pd.get("mimeType"), pd.get("text")), "bodySize": rq.get("bodySize"), "cookies": [(k["name"], k["value"]) for k in rq.get("cookies") or []],
+            "response": canon_har_response(e["response"])}
 
 
 def har_rest(e):
@@ -755,12 +801,12 @@ def shaped_sequence(rng):
         if a["response"] is None:
             a["response"] = clean_with_response(rng)["response"]
     elif k < 0.7:     # cookies / redirects / query then none
-        a["req_headers"]["Cookie"] = ["sid=1; theme=dark"]
+        a["req_headers"]["Cookie"] = [rng.choice(COOKIE_VALUES)]
         a["uri"] = a["uri"].split("?")[0] + "?first=1"
         b["uri"] = b["uri"].split("?")[0]
         b["req_headers"].pop("Cookie", None)
         if a["response"] is not None:
-            a["response"]["headers"].update({"set-cookie": ["sid=2; Path=/"], "location": ["/next"]})
+            a["response"]["headers"].update({"set-cookie": [rng.choice(COOKIE_VALUES), "sid=2; Path=/"], "location": ["/next"]})
         if b["response"] is not None:
             b["response"]["headers"].pop("set-cookie", None)
             b["response"]["headers"].pop("location", None)
@@ -1062,7 +1108,8 @@ def rand_chistory(rng):
         ints = []
         for _ in range(rng.choice([0, 1, 2, 4])):
             no += 1
-            ints.append({"id": no, "userinfo": rng.random() < 0.15, "response": rng.random() < 0.85, "codec": rng.choice(["ok"] * 8 + ["unknown", "unknown", "raises"])})
+            ints.append({"id": no, "userinfo": rng.random() < 0.15, "response": rng.random() < 0.85, "codec": rng.choice(["ok"] * 8 + ["unknown", "unknown", "raises"]),
+                         "cookies": [rng.choice(COOKIE_VALUES) for _ in range(rng.choice([0, 0, 1, 2]))]})
         h.append(ints)
     return h
 
@@ -1073,7 +1120,7 @@ def c_chistory(h):
         if e is None:
             evs.append("COther")
         else:
-            evs.append("CScenario " + clist(["{| i_id := %d; i_userinfo := %s; i_response := %s; i_codec := %s |}" % (i["id"], cbool(i["userinfo"]), cbool(i["response"]), {"ok": "CodecOk", "unknown": "CodecUnknown", "raises": "CodecRaises"}[i["codec"]]) for i in e], "inter"))
+            evs.append("CScenario " + clist(["{| i_id := %d; i_userinfo := %s; i_response := %s; i_codec := %s |}" % (i["id"], cbool(i["userinfo"]), cbool(i["response"]), {"ok": "CodecOk", "unknown": "CodecUnknown", "raises": "CodecRaises"}[i["codec"]]) .replace(" |}", "; i_cookie_values := %s |}" % clist([cstr(v) for v in i.get("cookies", [])], "str")) for i in e], "inter"))
     return clist(evs, "cevent")
 
 
@@ -1101,7 +1148,7 @@ def run_cassette_thread(fmt, sanitize, preserve, h):
                 continue
             inters = []
             for i in e:
-                inters.append({"id": f"i{i['id']}", "uri": f"http://{'u:p@' if i['userinfo'] else ''}127.0.0.1/x", "method": "GET", "req_headers": {"A": ["b"]}, "req_body": None, "meta": "fuzzing", "checks": [],
+                inters.append({"id": f"i{i['id']}", "uri": f"http://{'u:p@' if i['userinfo'] else ''}127.0.0.1/x", "method": "GET", "req_headers": {"A": ["b"], **({"Cookie": list(i["cookies"])} if i.get("cookies") else {})}, "req_body": None, "meta": "fuzzing", "checks": [],
                                "response": None if not i["response"] else {"status": 200, "message": "OK", "headers": {"content-type": ["text/plain"]}, "content": b"x", "encoding": {"ok": "utf-8", "unknown": "bogus", "raises": "undefined"}[i["codec"]], "http_version": "1.1"}})
             rec, _ = make_recorder(inters)
             w.handle_event(ctx, events.ScenarioFinished(id=uuid.uuid4(), phase=PhaseName.FUZZING, suite_id=uuid.uuid4(), label="GET /x", status=Status.SUCCESS, recorder=rec, elapsed_time=0.1, skip_reason=None, is_final=False))
